@@ -72,21 +72,38 @@ def pathOp (st : St) (r : Except Err (Bool × Buf)) (sp : Option CStr) : St × S
   | .error e => ({ st with buf := none }, withSpec (showErr e) (showPathSpec sp))
   | .ok res => ({ st with buf := some res.2, bufOk := res.1 }, withSpec (showPathRes res) (showPathSpec sp))
 
-def signedParser (st : St) (name : String) (s : CStr) (base : Nat) : String :=
-  let (r, lo, hi) : Except Err (Option Int) × Int × Int :=
-    if name = "toi" then ((if st.fx then strToi s base else strToiOrig s base), INT_MIN, INT_MAX)
-    else (strTol s base, LONG_MIN + 1, LONG_MAX - 1)
-  match r with
-  | .error e => showErr e
-  | .ok v => withSpec (showOptInt v) (showOptInt (refParse lo hi s base))
+/-- the numeral's exact value when the string is one numeral (any magnitude) -/
+def exactValue (s : CStr) (base : Nat) : Option Int := numeralValue base (stripBlanks s)
 
+/-- `toi`: the specification is the full range of `int`. `tol`/`toll`: the full range of the type,
+except that for a numeral equal to `LONG_MAX`/`LONG_MIN` (the values the library documents as
+rejected sentinels) the property demands neither verdict: no spec column there, the model (which
+mirrors the rejection) is still compared with the implementation. -/
+def signedParser (st : St) (name : String) (s : CStr) (base : Nat) : String :=
+  if name = "toi" then
+    match (if st.fx then strToi s base else strToiOrig s base) with
+    | .error e => showErr e
+    | .ok v => withSpec (showOptInt v) (showOptInt (refParse INT_MIN INT_MAX s base))
+  else
+    match strTol s base with
+    | .error e => showErr e
+    | .ok v =>
+      if exactValue s base = some LONG_MAX ∨ exactValue s base = some LONG_MIN then showOptInt v
+      else withSpec (showOptInt v) (showOptInt (refParse LONG_MIN LONG_MAX s base))
+
+/-- `tou`: full range of `unsigned int`. `toul`/`toull`: full range except the sentinel
+`ULONG_MAX`, for which no verdict is demanded (no spec column). -/
 def unsignedParser (st : St) (name : String) (s : CStr) (base : Nat) : String :=
-  let (r, hi) : Except Err (Option Nat) × Int :=
-    if name = "tou" then ((if st.fx then strTou s base else strTouOrig s base), (UINT_MAX : Int))
-    else ((if st.fx then strToul s base else strToulOrig s base), (ULONG_MAX : Int) - 1)
-  match r with
-  | .error e => showErr e
-  | .ok v => withSpec (showOptNat v) (showOptInt (refParse 0 hi s base))
+  if name = "tou" then
+    match (if st.fx then strTou s base else strTouOrig s base) with
+    | .error e => showErr e
+    | .ok v => withSpec (showOptNat v) (showOptInt (refParse 0 (UINT_MAX : Int) s base))
+  else
+    match (if st.fx then strToul s base else strToulOrig s base) with
+    | .error e => showErr e
+    | .ok v =>
+      if exactValue s base = some (ULONG_MAX : Int) then showOptNat v
+      else withSpec (showOptNat v) (showOptInt (refParse 0 (ULONG_MAX : Int) s base))
 
 def stepLine (st : St) : List String → St × String
   | ["mode", m] => ({ st with fx := (m != "orig") }, "ok")
